@@ -7,12 +7,15 @@
 -/
 import PyFV.Gen.Stencils
 import PyFV.Props.Examples
+import PyFV.Lemmas.GenEqTac
 import Mathlib.Tactic.Ring
 import Mathlib.Tactic.FieldSimp
 import Mathlib.Tactic.NormNum
 
 set_option linter.unusedSectionVars false
 set_option linter.unusedSimpArgs false
+set_option linter.unusedTactic false
+set_option linter.unreachableTactic false
 
 namespace PyFV.GenEqVol
 open PyFV
@@ -26,38 +29,38 @@ theorem volumes_translated : Gen.Stencils.untranslated.filter (fun s => s.endsWi
 
 theorem cellVolume_Grid1D_eq (M : Mesh α) (hk : M.kind = .cart1) (i j k : ℕ) :
     Gen.Stencils.cellVolume_Grid1D M i j k = cellVolume M (i+1, j+1, k+1) := by
-  simp only [Gen.Stencils.cellVolume_Grid1D, cellVolume, hk, Nat.add_sub_cancel]
+  simp only [Gen.Stencils.cellVolume_Grid1D, cellVolume, hk, Nat.add_sub_cancel] <;> geq_ring
 
 theorem cellVolume_CylindricalGrid1D_eq (M : Mesh α) (hk : M.kind = .cyl1) (i j k : ℕ) :
     Gen.Stencils.cellVolume_CylindricalGrid1D M i j k = cellVolume M (i+1, j+1, k+1) := by
-  simp only [Gen.Stencils.cellVolume_CylindricalGrid1D, cellVolume, hk, Nat.add_sub_cancel]
+  simp only [Gen.Stencils.cellVolume_CylindricalGrid1D, cellVolume, hk, Nat.add_sub_cancel] <;> geq_ring
 
 theorem cellVolume_SphericalGrid1D_eq (M : Mesh α) (hk : M.kind = .sph1) (i j k : ℕ) :
     Gen.Stencils.cellVolume_SphericalGrid1D M i j k = cellVolume M (i+1, j+1, k+1) := by
-  simp only [Gen.Stencils.cellVolume_SphericalGrid1D, cellVolume, hk, Nat.add_sub_cancel]
+  simp only [Gen.Stencils.cellVolume_SphericalGrid1D, cellVolume, hk, Nat.add_sub_cancel] <;> geq_ring
 
 theorem cellVolume_Grid2D_eq (M : Mesh α) (hk : M.kind = .cart2) (i j k : ℕ) :
     Gen.Stencils.cellVolume_Grid2D M i j k = cellVolume M (i+1, j+1, k+1) := by
-  simp only [Gen.Stencils.cellVolume_Grid2D, cellVolume, hk, Nat.add_sub_cancel]
+  simp only [Gen.Stencils.cellVolume_Grid2D, cellVolume, hk, Nat.add_sub_cancel] <;> geq_ring
 
 theorem cellVolume_CylindricalGrid2D_eq (M : Mesh α) (hk : M.kind = .cyl2) (i j k : ℕ) :
     Gen.Stencils.cellVolume_CylindricalGrid2D M i j k = cellVolume M (i+1, j+1, k+1) := by
-  simp only [Gen.Stencils.cellVolume_CylindricalGrid2D, cellVolume, hk, Nat.add_sub_cancel]
+  simp only [Gen.Stencils.cellVolume_CylindricalGrid2D, cellVolume, hk, Nat.add_sub_cancel] <;> geq_ring
 
 theorem cellVolume_PolarGrid2D_eq (M : Mesh α) (hk : M.kind = .pol2) (i j k : ℕ) :
     Gen.Stencils.cellVolume_PolarGrid2D M i j k = cellVolume M (i+1, j+1, k+1) := by
-  simp only [Gen.Stencils.cellVolume_PolarGrid2D, cellVolume, hk, Nat.add_sub_cancel]
+  simp only [Gen.Stencils.cellVolume_PolarGrid2D, cellVolume, hk, Nat.add_sub_cancel] <;> geq_ring
 
 theorem cellVolume_Grid3D_eq (M : Mesh α) (hk : M.kind = .cart3) (i j k : ℕ) :
     Gen.Stencils.cellVolume_Grid3D M i j k = cellVolume M (i+1, j+1, k+1) := by
-  simp only [Gen.Stencils.cellVolume_Grid3D, cellVolume, hk, Nat.add_sub_cancel]
+  simp only [Gen.Stencils.cellVolume_Grid3D, cellVolume, hk, Nat.add_sub_cancel] <;> geq_ring
 
 theorem cellVolume_CylindricalGrid3D_eq (M : Mesh α) (hk : M.kind = .cyl3) (i j k : ℕ) :
     Gen.Stencils.cellVolume_CylindricalGrid3D M i j k = cellVolume M (i+1, j+1, k+1) := by
-  simp only [Gen.Stencils.cellVolume_CylindricalGrid3D, cellVolume, hk, Nat.add_sub_cancel]
+  simp only [Gen.Stencils.cellVolume_CylindricalGrid3D, cellVolume, hk, Nat.add_sub_cancel] <;> geq_ring
 
 theorem cellVolume_SphericalGrid3D_eq (M : Mesh α) (hk : M.kind = .sph3) (i j k : ℕ) :
     Gen.Stencils.cellVolume_SphericalGrid3D M i j k = cellVolume M (i+1, j+1, k+1) := by
-  simp only [Gen.Stencils.cellVolume_SphericalGrid3D, cellVolume, hk, Nat.add_sub_cancel]
+  simp only [Gen.Stencils.cellVolume_SphericalGrid3D, cellVolume, hk, Nat.add_sub_cancel] <;> geq_ring
 
 end PyFV.GenEqVol
